@@ -177,6 +177,13 @@ TWINS: list[tuple[str, str, str, str]] = [
 ]
 
 
+TWINS_REGEX: list[tuple[str, str, str, str, str]] = [
+    # (id, file, function-qualname-prefix or "", regex, replacement): applied to the whole file text
+    ("twin-fieldvar-structure", "types/structure.py", "", r"\bfield\b(?!s|_)", "fld"),
+    ("twin-fieldvar-compiler", "compiler.py", "", r"\bfield\b(?!s|_)", "fld"),
+]
+
+
 # ---------------------------------------------------------------------------------------------------------------
 
 def _scratch_copy() -> str:
@@ -260,7 +267,17 @@ def _run_twin(job):
 
     d = _scratch_copy()
     try:
-        if rel == "*unparse*":
+        if old.startswith("regex:"):
+            import re as _re
+
+            path = os.path.join(d, PKG, rel)
+            src = open(path, encoding="utf-8").read()
+            # identifiers only: leave string literals / comments that merely mention the word alone is not needed for a twin; keyword
+            # arguments and attribute names called ``field`` do not occur in these files
+            src2 = _re.sub(old[6:], new, src)
+            open(path, "w", encoding="utf-8").write(src2)
+            py_compile.compile(path, doraise=True, cfile=os.path.join(d, "x.pyc"))
+        elif rel == "*unparse*":
             for dirpath, _dn, fns in os.walk(os.path.join(d, PKG)):
                 for fn in fns:
                     if fn.endswith(".py"):
@@ -311,6 +328,7 @@ def _dispatch(job):
 
 def jobs(only: str | None = None):
     js = [("mutant", *m) for m in MUTANTS] + [("revert", *r) for r in REVERTS] + [("twin", "twin-unparse-all", "*unparse*", "", "")] + [("twin", *t) for t in TWINS]
+    js += [("twin", t[0], t[1], "regex:" + t[3], t[4]) for t in TWINS_REGEX]
     if only:
         js = [j for j in js if only in j[1] or (j[0] != "twin" and any(only in r for r in j[-1]))]
     return js
